@@ -112,9 +112,21 @@ def rule_a(ctx):
                             thr_form = None
                     forms['guard'] = thr_form
                     forms['guard_seen'] = True
-            missing = [k for k in ('complete', 'parsed_lo', 'parsed_hi', 'dropped', 'decrement') if k not in forms]
+            missing = [k for k in ('complete', 'parsed_lo', 'parsed_hi') if k not in forms]
             if missing:
                 raise AnalysisError('C04.a: cannot find %s in an iteration (header_length=%d)' % (missing, h))
+            unconsumed = [k for k in ('dropped', 'decrement') if k not in forms]
+            if unconsumed:
+                # a full trip round the loop that handed a frame to the decoder but did not take it out of the buffer
+                results.setdefault(h, []).append((False, 'an iteration decodes a frame and goes round without %s: '
+                                                  'the same bytes are parsed again with the next read and every '
+                                                  'later frame is shifted' % (
+                                                      'removing it from the buffer' if 'dropped' in unconsumed else
+                                                      'reducing the byte counter')))
+                g = forms.get('guard')
+                thr = g.const if g is not None and g.is_const() else None
+                guards.setdefault(h, []).append((thr is not None, g))
+                continue
             ok = True
             detail = ''
             if forms['parsed_lo'] != Lin.k(h):
